@@ -13,7 +13,9 @@ use std::sync::atomic::{AtomicBool, Ordering};
 use std::sync::Mutex;
 use std::time::{Duration, Instant};
 
-const SOP_CLASSES: [&str; 4] = ["1.2.840.10008.5.1.4.1.1.2", "1.2.840.10008.5.1.4.1.1.4", "1.2.840.10008.5.1.4.1.1.7", "1.2.840.10008.5.1.4.1.1.88.11"];
+/// storage classes, including UIDs that are string prefixes of one another (CT / Enhanced CT / NM)
+const SOP_CLASSES: [&str; 6] = ["1.2.840.10008.5.1.4.1.1.2", "1.2.840.10008.5.1.4.1.1.4", "1.2.840.10008.5.1.4.1.1.7", "1.2.840.10008.5.1.4.1.1.88.11", "1.2.840.10008.5.1.4.1.1.2.1", "1.2.840.10008.5.1.4.1.1.20"];
+const NC: usize = SOP_CLASSES.len();
 const TS_UIDS: [&str; 4] = ["1.2.840.10008.1.2", "1.2.840.10008.1.2.1", "1.2.840.10008.1.2.2", "1.2.840.10008.1.2.1.99"];
 
 fn ref_ts(uid: &str) -> Option<(Ts, bool)> {
@@ -82,7 +84,7 @@ fn dataset(f: &FileSpec, k: usize) -> (Vec<Elem>, String) {
     let inst = format!("1.2.826.0.1.3680043.10.1462.{}", k + 1);
     let base = if f.ts % 4 == 0 { only_dictionary_vr(&only_standard(&f.elems)) } else { only_standard(&f.elems) };
     let mut v: Vec<Elem> = base.into_iter().filter(|e| e.g >= 8 && !(e.g == 8 && (e.e == 0x05 || e.e == 0x16 || e.e == 0x18))).collect();
-    v.push(Elem { g: 8, e: 0x16, vr: "UI".into(), v: Val::Strs(vec![SOP_CLASSES[f.sop_class as usize % 4].into()]) });
+    v.push(Elem { g: 8, e: 0x16, vr: "UI".into(), v: Val::Strs(vec![SOP_CLASSES[f.sop_class as usize % NC].into()]) });
     v.push(Elem { g: 8, e: 0x18, vr: "UI".into(), v: Val::Strs(vec![inst.clone()]) });
     v.sort_by_key(|e| (e.g, e.e));
     v.dedup_by_key(|e| (e.g, e.e));
@@ -166,7 +168,7 @@ fn serve(mut p: RawPeer, conn: usize, c: &Case, out: &Mutex<Vec<Stored>>, notes:
         let chosen = pc.transfer_syntaxes.iter().map(|t| t.trim_end_matches('\0').to_string()).find(|t| {
             let ti = TS_UIDS.iter().position(|s| s == t);
             match (cls, ti) {
-                (Some(ci), Some(ti)) => c.policy.iter().any(|(a, b)| *a as usize % 4 == ci && *b as usize % 4 == ti),
+                (Some(ci), Some(ti)) => c.policy.iter().any(|(a, b)| *a as usize % NC == ci && *b as usize % 4 == ti),
                 _ => false,
             }
         });
@@ -256,14 +258,14 @@ fn check(root: &std::path::Path, c: &Case, obs: &mut Obs) {
         let (rts, defl) = ref_ts(uid).unwrap();
         let raw = ds::encode_ds(&elems, rts, LenMode::AsFlagged);
         let body = if defl { deflate(&raw) } else { raw };
-        let bytes = refimpl::file::build_file(uid, SOP_CLASSES[f.sop_class as usize % 4], &inst, &body, true);
+        let bytes = refimpl::file::build_file(uid, SOP_CLASSES[f.sop_class as usize % NC], &inst, &body, true);
         let path = dir.path().join(format!("f{k}.dcm"));
         if std::fs::write(&path, bytes).is_err() {
             obs.skip("cannot write input file");
             return;
         }
         paths.push(path);
-        specs.push((elems, inst, f.sop_class as usize % 4, f.ts as usize % 4));
+        specs.push((elems, inst, f.sop_class as usize % NC, f.ts as usize % 4));
     }
     let listener = match TcpListener::bind("127.0.0.1:0") {
         Ok(l) => l,
@@ -358,7 +360,7 @@ fn check(root: &std::path::Path, c: &Case, obs: &mut Obs) {
             obs.fail("C33:storescu sends a PDU longer than the acceptor's maximum", m);
         }
     }
-    let policy_desc = format!("accepted combinations {:?}; files {:?}; exit code {code}", c.policy.iter().map(|(a, b)| (*a % 4, *b % 4)).collect::<Vec<_>>(), specs.iter().map(|s| (s.2, s.3)).collect::<Vec<_>>());
+    let policy_desc = format!("accepted combinations {:?}; files {:?}; exit code {code}", c.policy.iter().map(|(a, b)| (*a as usize % NC, *b % 4)).collect::<Vec<_>>(), specs.iter().map(|s| (s.2, s.3)).collect::<Vec<_>>());
     let opts_cmd = ParseOpts { ts: Ts::ImplicitLE, sq_tags: None, require_even: false, require_ascending: false };
     let mut sent_count = vec![0usize; specs.len()];
     for st in &stored {
@@ -411,7 +413,7 @@ fn check(root: &std::path::Path, c: &Case, obs: &mut Obs) {
             obs.fail("C33:file sent more than once", format!("file {k}: {n} times; {policy_desc}"));
         }
         let (_, _, cls, fts) = &specs[k];
-        let direct = c.policy.iter().any(|(a, b)| *a as usize % 4 == *cls && *b as usize % 4 == *fts);
+        let direct = c.policy.iter().any(|(a, b)| *a as usize % NC == *cls && *b as usize % 4 == *fts);
         if direct && *n == 0 {
             obs.fail("C33:file not sent although a context with its SOP class and transfer syntax was accepted", format!("file {k}; {policy_desc}; notes {notes:?}; stderr: {err_tail}"));
         }
@@ -423,10 +425,10 @@ fn check(root: &std::path::Path, c: &Case, obs: &mut Obs) {
 }
 
 fn strategy() -> BoxedStrategy<Case> {
-    let file = (0u8..4, 0u8..4, gen::dataset(DsCfg { max_depth: 2, max_top: 5, pixel_seq: false })).prop_map(|(sop_class, ts, elems)| FileSpec { sop_class, ts, elems });
+    let file = (0u8..6, 0u8..4, gen::dataset(DsCfg { max_depth: 2, max_top: 5, pixel_seq: false })).prop_map(|(sop_class, ts, elems)| FileSpec { sop_class, ts, elems });
     (
         proptest::collection::vec(file, 1..=5),
-        proptest::collection::vec((0u8..4, 0u8..4), 0..=10),
+        proptest::collection::vec((0u8..6, 0u8..4), 0..=12),
         prop_oneof![Just(16384u32), Just(1018u32), Just(0u32), 1018u32..70_000],
         proptest::bool::weighted(0.3),
         proptest::option::weighted(0.3, 0u8..3),
@@ -440,7 +442,7 @@ pub fn run(ctx: &Ctx) {
     ctx.assume("the real dicom-storescu binary (built from /repo's working tree by ./check) is run against a recording acceptor played by the harness (reference PDU codec)");
     ctx.run_prop(
         "storescu",
-        "1-5 files built with the reference encoders (4 storage SOP classes x Implicit VR LE / Explicit VR LE / Explicit VR BE / Deflated Explicit VR LE, standard-dictionary elements, nested sequences) are sent by the real dicom-storescu binary (sync, or -c 1..3; with and without --never-transcode) to a recording acceptor whose accepted (SOP class, transfer syntax) combinations, and maximum PDU length (incl. 0 and the minimum), are generated; oracle per store request recorded: the context id was accepted, its abstract syntax is the file's SOP class (the file is identified by the Affected SOP Instance UID), the Affected SOP Class UID is the file's, the data (inflated when deflated) parsed by the reference parser in the context's transfer syntax equals the reference encoding of the file's data set in that syntax, no PDU exceeds the acceptor's maximum; a file is sent at most once, and is sent when a context with exactly its class and syntax was accepted; non-trivial = several files and at least one store",
+        "1-5 files built with the reference encoders (6 storage SOP classes, three of them with UIDs that are prefixes of one another, x Implicit VR LE / Explicit VR LE / Explicit VR BE / Deflated Explicit VR LE, standard-dictionary elements, nested sequences) are sent by the real dicom-storescu binary (sync, or -c 1..3; with and without --never-transcode) to a recording acceptor whose accepted (SOP class, transfer syntax) combinations, and maximum PDU length (incl. 0 and the minimum), are generated; oracle per store request recorded: the context id was accepted, its abstract syntax is the file's SOP class (the file is identified by the Affected SOP Instance UID), the Affected SOP Class UID is the file's, the data (inflated when deflated) parsed by the reference parser in the context's transfer syntax equals the reference encoding of the file's data set in that syntax, no PDU exceeds the acceptor's maximum; a file is sent at most once, and is sent when a context with exactly its class and syntax was accepted; non-trivial = several files and at least one store",
         strategy,
         ctx.cases(800, 10_000),
         move |c: &Case, obs: &mut Obs| check(&root, c, obs),
